@@ -5,33 +5,58 @@
 import IcontractModel.Checker
 namespace Icontract
 
-/-- The condition can be evaluated for this call and answers truthy. -/
-def condTruthy (o : Oracle) (kw : Kwargs) (c : Contract) : Bool :=
-  (missingNames c.mandatory kw).isEmpty && !c.coroFn &&
-  match o.cond c.id with
+/-- The object that is finally truth-tested: on a sync callable the condition's
+return value (coroutine-function conditions and coroutine results are rejected,
+`none`); on an async callable the awaited value. -/
+def finalAns (isAsync : Bool) (c : Contract) (a : Ans) : Option Ans :=
+  if isAsync then
+    if c.coroFn then some a
+    else match a with
+      | .coro inner => some inner
+      | a => some a
+  else
+    if c.coroFn then none
+    else match a with
+      | .coro _ => none
+      | a => some a
+
+/-- Python truthiness of the finally tested object (a coroutine object is truthy). -/
+def ansTruthy : Ans → Bool
   | .val _ .truthy => true
+  | .coro _ => true
   | _ => false
 
-/-- The condition can be evaluated for this call and answers falsy. -/
-def condFalsy (o : Oracle) (kw : Kwargs) (c : Contract) : Bool :=
-  (missingNames c.mandatory kw).isEmpty && !c.coroFn &&
-  match o.cond c.id with
+def ansFalsy : Ans → Bool
   | .val _ .falsy => true
   | _ => false
 
+/-- The condition can be evaluated for this call and answers truthy. -/
+def condTruthy (isAsync : Bool) (o : Oracle) (kw : Kwargs) (c : Contract) : Bool :=
+  (missingNames c.mandatory kw).isEmpty &&
+  match finalAns isAsync c (o.cond c.id) with
+  | some a => ansTruthy a
+  | none => false
+
+/-- The condition can be evaluated for this call and answers falsy. -/
+def condFalsy (isAsync : Bool) (o : Oracle) (kw : Kwargs) (c : Contract) : Bool :=
+  (missingNames c.mandatory kw).isEmpty &&
+  match finalAns isAsync c (o.cond c.id) with
+  | some a => ansFalsy a
+  | none => false
+
 /-- Effective precondition: own conditions conjoined, groups as alternatives;
 no precondition at all accepts every call. -/
-def dnfHolds (o : Oracle) (kw : Kwargs) (groups : List (List Contract)) : Prop :=
-  groups = [] ∨ ∃ g ∈ groups, ∀ c ∈ g, condTruthy o kw c = true
+def dnfHolds (isAsync : Bool) (o : Oracle) (kw : Kwargs) (groups : List (List Contract)) : Prop :=
+  groups = [] ∨ ∃ g ∈ groups, ∀ c ∈ g, condTruthy isAsync o kw c = true
 
 /-- Every condition answers with a plain truth value. -/
-def totalOn (o : Oracle) (kw : Kwargs) (cs : List Contract) : Prop :=
-  ∀ c ∈ cs, condTruthy o kw c = true ∨ condFalsy o kw c = true
+def totalOn (isAsync : Bool) (o : Oracle) (kw : Kwargs) (cs : List Contract) : Prop :=
+  ∀ c ∈ cs, condTruthy isAsync o kw c = true ∨ condFalsy isAsync o kw c = true
 
 /-- first falsy condition of a group -/
-def firstFalsy (o : Oracle) (kw : Kwargs) : List Contract → Option Contract
+def firstFalsy (isAsync : Bool) (o : Oracle) (kw : Kwargs) : List Contract → Option Contract
   | [] => none
-  | c :: cs => if condTruthy o kw c then firstFalsy o kw cs else some c
+  | c :: cs => if condTruthy isAsync o kw c then firstFalsy isAsync o kw cs else some c
 
 /-- Building the error of `c` neither raises nor yields a falsy exception object;
 `errorOf` is what is built. -/
@@ -42,6 +67,18 @@ def errorOf (o : Oracle) (c : Contract) : Option Raised :=
   | .cls true t => match o.msg c.id with | .ok => some (.viol c.id t) | _ => none
   | .inst e => some (.user e)
   | _ => none
+
+/-- The capture can be evaluated for this call and returns a value. -/
+def captureTotal (isAsync : Bool) (o : Oracle) (kw : Kwargs) (s : Snapshot) : Bool :=
+  (missingNames s.args kw).isEmpty &&
+  if isAsync then
+    (if s.coroFn then (match o.capture s.id with | .raises _ => false | _ => true)
+     else match o.capture s.id with
+       | .raises _ => false
+       | .coro (.raises _) => false
+       | _ => true)
+  else
+    !s.coroFn && (match o.capture s.id with | .val _ _ => true | _ => false)
 
 def Event.isBody : Event → Bool
   | .body _ _ => true
